@@ -215,6 +215,26 @@ def specOpv (geno : List (List (List Q))) (ucols : List (List Q)) (bnds : List (
     let V := trueValues geno ut.1 bnds
     approx (-(opv.getD ut.2 0)) (bestValue V bnds.length x))
 
+/-- OHV subset latent: minus the mean of the selected crosses' optimal haploid values -/
+def specOhvLatent (ohvmat : List (List Q)) (x : List Nat) (lat : List Q) : Bool :=
+  let k : Q := (x.length : Nat)
+  lat.zipIdx.all (fun lt =>
+    approx lt.1 (-(Np.sum (x.map (fun i => (ohvmat.getD i []).getD lt.2 0)) / k)))
+
+/-- genotype-builder latent by definition: per block the `nbest` largest best-phase values among the
+    selected individuals, summed over blocks, times `-(ploidy / nbest)` -/
+def specGb (geno : List (List (List Q))) (ucols : List (List Q)) (bnds : List (Nat × Nat))
+    (x : List Nat) (nbest : Nat) (lat : List Q) : Bool :=
+  lat.length == ucols.length &&
+  ucols.zipIdx.all (fun ut =>
+    let V := trueValues geno ut.1 bnds
+    let ploidy : Q := (geno.length : Nat)
+    let perBlock := (List.range bnds.length).map (fun b =>
+      let best := x.map (fun p => (bestBlock V [p] b).getD 0)
+      let desc := Np.stableSort (fun a c => decide (c ≤ a)) best
+      Np.sum (desc.take nbest))
+    approx (lat.getD ut.2 0) (-(ploidy / (nbest : Q)) * Np.sum perBlock))
+
 def pairs (j : Json) : J.R (Nat × Nat) := do
   let l ← J.list J.nat j
   match l with
@@ -253,6 +273,14 @@ def opSpec : J.Op := fun j => do
     let opv? ← J.fieldOpt j "opv_latent" (J.list J.rat)
     if let (some x, some opv) := (x?, opv?) then
       cl := cl ++ [⟨"opv_def", specOpv geno ucols bnds x opv⟩]
+    let xo? ← J.fieldOpt j "x_ohv" (J.list J.nat)
+    let ol? ← J.fieldOpt j "ohv_latent" (J.list J.rat)
+    if let (some xo, some ol, some ohvmat) := (xo?, ol?, ohvmat?) then
+      cl := cl ++ [⟨"ohv_latent_def", specOhvLatent ohvmat xo ol⟩]
+    let gb? ← J.fieldOpt j "gb_latent" (J.list J.rat)
+    let nbest? ← J.fieldOpt j "nbest" J.nat
+    if let (some x, some gb, some nbest) := (x?, gb?, nbest?) then
+      cl := cl ++ [⟨"gb_def", specGb geno ucols bnds x nbest gb⟩]
   let failed := (cl.filter (fun c => !c.ok)).map (·.name)
   pure <| J.obj [("ok", J.ofBool failed.isEmpty), ("failed", J.ofList J.ofStr failed),
                  ("checked", J.ofList J.ofStr (cl.map (·.name)))]
